@@ -46,7 +46,7 @@ WORKERS = {"quick": 16, "thorough": 16}
 WATCHDOG = {"quick": 600, "thorough": 3000}
 
 KINDS = ["select", "select", "setop", "insert", "update", "delete", "create", "drop"]
-SPECIAL_KINDS = {"update-join", "for-update-of", "update-from", "dialect-sensitive-constants", "dialect-sensitive-set", "sign-twins"}
+SPECIAL_KINDS = {"update-join", "for-update-of", "update-from", "dialect-sensitive-constants", "dialect-sensitive-set", "sign-twins", "mutable-builder", "mutable-builder-setop"}
 
 
 def special_programs(d):
@@ -102,6 +102,27 @@ def special_programs(d):
     q = p.call(q, "where", p.bin(">", p.call(t1, "field", "a"), p.un("neg", p.call(t1, "field", "b"))))
     q = p.call(q, "limit", 5)
     out.append((p.prog(dialect=d, kind="sign-twins"), q.i))
+    # builders in mutable mode (immutable=False): builder calls change the receiver by contract, a render never does
+    p = P()
+    t1 = p.new("Table", "t1")
+    t2 = p.new("Table", "t2")
+    q = p.call(Cls(d), "from_", t1, immutable=False)
+    p.call(q, "select", p.call(t1, "field", "a"))
+    p.call(q, "where", p.bin(">", p.call(t1, "field", "b"), 1))
+    p.call(q, "orderby", p.call(t1, "field", "a"))
+    so = p.call(q, "union", p.call(p.call(Cls(d), "from_", t2), "select", p.call(t2, "field", "a")))
+    so = p.call(p.call(p.call(so, "orderby", p.call(t1, "field", "a")), "limit", 5), "offset", 2)
+    out.append((p.prog(dialect=d, kind="mutable-builder-setop"), so.i))
+    p = P()
+    t1 = p.new("Table", "t1")
+    t2 = p.new("Table", "t2")
+    q = p.call(Cls(d), "from_", t1, immutable=False)
+    p.call(q, "select", p.call(t1, "field", "a"), 7)
+    p.call(p.call(q, "join", t2), "on", p.bin("==", p.call(t1, "field", "id"), p.call(t2, "field", "id")))
+    p.call(q, "where", p.call(p.call(t1, "field", "c"), "isin", ["x", "y"]))
+    p.call(q, "limit", 3)
+    outer = p.call(p.call(Cls(d), "from_", p.call(q, "as_", "inner_q")), "select", "a")
+    out.append((p.prog(dialect=d, kind="mutable-builder"), outer.i))
     return out
 
 
